@@ -9,7 +9,7 @@ from . import core
 STUB_NAMES = ['vrec', 'vdrv', 'vcc', 'vc++', 'vfc', 'vclang', 'vclang++', 'var',
               'vwrap-gcc', 'vwrap-g++', 'vwrap-cc', 'vwrap-c++', 'vwrap-clang',
               'vwrap-clang++', 'vwrap-gfortran', 'vwrap-ar', 'vwrap-patchelf',
-              'vwrap-doppel', 'vwrap-pkg-config']
+              'vwrap-doppel', 'vwrap-pkg-config', 'vwrap-cp', 'vwrap-ln']
 
 
 def _newer(a, b):
